@@ -30,3 +30,14 @@ $M C04,C14,C11 qubovert/_qubo.py '        for k, v in self.items():
             Q[key] += v'
 # B8 unary log_trick=False slack for le uses one more ancilla than needed (still exact)
 $M C02,C03,C08 qubovert/_pcbo.py '                for i in range(num_bits(-min_val, log_trick)):' '                for i in range(num_bits(-min_val, log_trick) + (0 if log_trick else 1)):'
+# B9 reduction ancillas start one label later than necessary (labels >= n, unused, still strictly larger)
+$M C01,C08,C14,C16 qubovert/_pubo.py '        ancilla = self.num_binary_variables' '        ancilla = self.num_binary_variables + 1'
+# B10 constraint ancilla counter advances by two (names distinct, all indices below num_ancillas)
+$M C02,C03,C08,C14,C16,C19 qubovert/_pcbo.py '        self._ancilla += 1' '        self._ancilla += 2'
+# B11 annealer states are packaged with their keys in reverse order
+$M C11,C12,C17,C19 qubovert/sim/_anneal.py '        state = {reverse_mapping[k]: v for k, v in enumerate(states[i])}' '        state = {reverse_mapping[k]: v for k, v in reversed(list(enumerate(states[i])))}'
+# B12 convert_solution builds its result in reverse order
+$M C01,C04,C08,C10 qubovert/_qubo.py '            for i in range(self.num_binary_variables)' '            for i in reversed(range(self.num_binary_variables))'
+# B15 OR built by De Morgan (same function, different construction)
+$M C06,C07,C08,C19 qubovert/sat/_satisfiability.py '    x, v = OR(*variables[:-1]), BUFFER(variables[-1])
+    return x + v * (1 - x)' '    return NOT(AND(*[NOT(v) for v in variables]))'
